@@ -377,6 +377,24 @@ func c10(c *core.Ctx) {
 						}
 					}
 				}
+				// ... nor by a function of the module it is handed to (a "log-safe rendering" that masks values in place)
+				for _, o := range core.Origins(md) {
+					for _, r := range core.Refs(o) {
+						call, ok := r.(*ssa.Call)
+						if !ok {
+							continue
+						}
+						h := call.Call.StaticCallee()
+						if h == nil || h.Blocks == nil || !strings.HasPrefix(core.InfoOf(&call.Call).Pkg, core.ModulePath) {
+							continue
+						}
+						for i, a := range call.Call.Args {
+							if a == o && i < len(h.Params) && writesIntoMD(h, h.Params[i], 0) {
+								mutated = true
+							}
+						}
+					}
+				}
 				c.Check(direct && !mutated, key, nic.Pos(), "incoming metadata is the fresh copy returned by FromOutgoingContext (grpc "+p.GrpcVer+"), not written afterwards", "the metadata handed to the handler is not the fresh copy made by metadata.FromOutgoingContext (or is written afterwards): caller and handler would share/alter one map")
 				// guarded by ok
 				g := core.GuardedBy(nic, func(f core.Fact) bool {
@@ -432,6 +450,34 @@ func c10(c *core.Ctx) {
 				if g, ok := core.Strip(wv.Call.Args[1]).(*ssa.Global); ok {
 					keys[g] = true
 				}
+			}
+		}
+		// what the back-door hands out is the caller's context as the caller made it: between the entry point's
+		// parameter and the value stored under the private key lie only the steps a caller would see on a network
+		// client too (per-call credentials put into the outgoing metadata, a cancel for the call's lifetime) — not a
+		// value the library means for the handler (the in-process peer, incoming metadata, a transport stream)
+		for _, fn := range p.LibFuncs("inprocgrpc") {
+			for _, wv := range core.CallsIn(fn, func(_ *ssa.Call, ci core.CallInfo) bool { return ci.Is("context.WithValue") }) {
+				if _, ok := core.Strip(wv.Call.Args[1]).(*ssa.Global); !ok {
+					continue
+				}
+				tr := ctxTrace(p, wv.Call.Args[2])
+				var foreign []string
+				for _, l := range tr.layerList() {
+					switch {
+					case strings.HasPrefix(l, "context.WithCancel"), strings.HasPrefix(l, "context.WithDeadline"), strings.HasPrefix(l, "context.WithTimeout"):
+					case strings.Contains(l, "NewOutgoingContext"), strings.Contains(l, "AppendToOutgoingContext"), strings.Contains(l, "ApplyPerRPCCreds"):
+					default:
+						foreign = append(foreign, l)
+					}
+				}
+				okRoots := len(tr.Roots) > 0
+				for r := range tr.Roots {
+					if !strings.HasPrefix(r, "param:") {
+						okRoots = false
+					}
+				}
+				c.Check(len(foreign) == 0 && okRoots, core.FuncName(fn)+":client-context-is-the-callers", wv.Pos(), fmt.Sprintf("the context stored for the back-door derives from the entry point's parameter through %v only", tr.layerList()), fmt.Sprintf("the context stored for the client-context accessor is not the caller's own: roots %v, layers %v (unexpected: %v) — the handler sees, through the back-door, values the library attached", tr.rootList(), tr.layerList(), foreign))
 			}
 		}
 		for g := range keys {
@@ -749,4 +795,130 @@ func cancelDeferredAround(l *ssa.Call, fn *ssa.Function) bool {
 		}
 	}
 	return false
+}
+
+// writesIntoMD: fn stores into the map md (a parameter of it) or into one of
+// the value slices held by it, directly or through a module function it hands
+// the map (or such a slice) to.
+func writesIntoMD(fn *ssa.Function, md ssa.Value, depth int) bool {
+	if depth > 2 {
+		return false
+	}
+	seen := map[ssa.Value]bool{}
+	var derives func(v ssa.Value) bool
+	derives = func(v ssa.Value) bool {
+		if v == md {
+			return true
+		}
+		if v == nil || seen[v] {
+			return false
+		}
+		seen[v] = true
+		defer delete(seen, v)
+		for _, o := range core.Origins(v) {
+			if o == md {
+				return true
+			}
+			switch x := o.(type) {
+			case *ssa.Lookup:
+				if derives(x.X) {
+					return true
+				}
+			case *ssa.Extract:
+				switch t := x.Tuple.(type) {
+				case *ssa.Next:
+					if rg, ok := t.Iter.(*ssa.Range); ok && x.Index == 2 && derives(rg.X) {
+						return true
+					}
+				case *ssa.Lookup:
+					if x.Index == 0 && derives(t.X) {
+						return true
+					}
+				}
+			case *ssa.Slice:
+				if derives(x.X) {
+					return true
+				}
+			case *ssa.ChangeType:
+				if derives(x.X) {
+					return true
+				}
+			}
+		}
+		return false
+	}
+	// a map of the function's own into which one of md's slices was put holds md's memory too
+	plain := derives
+	holds := func(m ssa.Value) bool {
+		for _, o := range core.Origins(m) {
+			if _, isMk := o.(*ssa.MakeMap); !isMk {
+				continue
+			}
+			for _, r := range core.Refs(o) {
+				if mu, ok := r.(*ssa.MapUpdate); ok && mu.Map == o && plain(mu.Value) {
+					return true
+				}
+			}
+		}
+		return false
+	}
+	derives = func(v ssa.Value) bool {
+		if plain(v) {
+			return true
+		}
+		for _, o := range core.Origins(v) {
+			switch x := o.(type) {
+			case *ssa.Lookup:
+				if holds(x.X) {
+					return true
+				}
+			case *ssa.Extract:
+				switch t := x.Tuple.(type) {
+				case *ssa.Next:
+					if rg, ok := t.Iter.(*ssa.Range); ok && x.Index == 2 && holds(rg.X) {
+						return true
+					}
+				case *ssa.Lookup:
+					if x.Index == 0 && holds(t.X) {
+						return true
+					}
+				}
+			}
+		}
+		return false
+	}
+	found := false
+	core.Instrs(fn, func(in ssa.Instruction) {
+		if found {
+			return
+		}
+		switch x := in.(type) {
+		case *ssa.MapUpdate:
+			if plain(x.Map) {
+				found = true
+			}
+		case *ssa.Store:
+			if ia, ok := x.Addr.(*ssa.IndexAddr); ok && derives(ia.X) {
+				found = true
+			}
+		case *ssa.Call:
+			h := x.Call.StaticCallee()
+			if h != nil && h.Blocks != nil && strings.HasPrefix(core.InfoOf(&x.Call).Pkg, core.ModulePath) {
+				for i, a := range x.Call.Args {
+					if i < len(h.Params) && derives(a) && writesIntoMD(h, h.Params[i], depth+1) {
+						found = true
+					}
+				}
+			}
+			// sort.Strings(vs), copy(vs, …)
+			ci := core.InfoOf(&x.Call)
+			if ci.Is("sort.Strings") && derives(x.Call.Args[0]) {
+				found = true
+			}
+			if b, isB := x.Call.Value.(*ssa.Builtin); isB && b.Name() == "copy" && derives(x.Call.Args[0]) {
+				found = true
+			}
+		}
+	})
+	return found
 }
